@@ -103,30 +103,19 @@ func (f *Field) write(buf *bytes.Buffer, depth int) {
 	f.writeSels(buf, depth)
 }
 
-func (f *Field) getArg(name string) (av *ArgValue) {
-	for _, a := range f.Args {
-		if a.Arg == name {
-			av = a
-			break
-		}
-	}
-	return
-}
-
 func (f *Field) sortArgs() (errors []error) {
 	if 0 < len(f.Args) {
 		if ot, _ := f.ConType.(*Object); ot != nil {
 			if fd := ot.fields.get(f.Name); fd != nil {
-				args := make([]*ArgValue, 0, len(f.Args))
-				for _, a := range fd.args.list {
-					args = append(args, f.getArg(a.N))
-				}
+				// The arguments are looked up by name when resolving so the
+				// parsed argument list is left as it is, a reordered list
+				// with nil in place of the omitted arguments breaks a later
+				// Validate() or String() of the executable.
 				for _, av := range f.Args {
 					if fd.getArg(av.Arg) == nil {
 						errors = append(errors, valError(av.line, av.col, "%s is not an argument to %s", av.Arg, f.Name))
 					}
 				}
-				f.Args = args
 			}
 		}
 	}
